@@ -281,10 +281,14 @@ class OperatorNode(ASTNode):
 
         op = self.op_map.get(xop, xop)
 
-        if self.type == Token.OP_PRE:
-            return self.value + args[0].emit
-
         parent = self.parent
+        if self.type == Token.OP_PRE:
+            ss = self.value + args[0].emit
+            if isinstance(parent, OperatorNode) and parent.value == '^':
+                # negation binds tighter than ^ in excel: -2^2 == 4
+                ss = f'({ss})'
+            return ss
+
         if op == '%':
             ss = f'{args[0].emit} / 100'
         elif op == ' ':
@@ -326,6 +330,9 @@ class OperandNode(ASTNode):
             value = self.value
             if value.startswith('"') and value.endswith('"'):
                 value = value[1:-1]
+            # backslashes and line breaks are plain characters in excel text
+            value = value.replace('\\', '\\\\').replace(
+                '\n', '\\n').replace('\r', '\\r')
             value = value.replace('""', r'\"')
             return f'"{value}"'
 
